@@ -240,6 +240,9 @@ func checkC15(c *Ctx) {
 	for _, f := range replaySlogCaller() {
 		c.Violation(f.Key, f.What, nil)
 	}
+	for _, f := range replayVolatileStackEnabler() {
+		c.Violation(f.Key, f.What, map[string]interface{}{"mode": "volatile-stack-enabler"})
+	}
 	for _, f := range replaySlogSkip() {
 		c.Violation(f.Key, f.What, map[string]interface{}{"mode": "slog-caller-skip"})
 	}
@@ -725,6 +728,35 @@ func replayCallerConcurrent(rounds int) (finds []Finding) {
 		case <-time.After(30 * time.Second):
 			add("C15/capture-hangs", "goroutines logging with caller/stack annotation made no progress for 30 s after an entry whose caller could not be resolved:\n%s", zapStacks())
 			return
+		}
+	}
+	return finds
+}
+
+// replayVolatileStackEnabler: the stack-trace enabler is moved by another goroutine at any moment, so two reads of
+// it for one entry may disagree. Whatever it answers, a stack trace that is attached is the complete call chain.
+func replayVolatileStackEnabler() (finds []Finding) {
+	add := func(key, f string, a ...interface{}) {
+		if len(finds) < 3 {
+			finds = append(finds, Finding{Key: key, What: fmt.Sprintf(f, a...)})
+		}
+	}
+	for _, pattern := range [][]bool{{true, false}, {false, true}, {true, true, false}, {true, false, false, true}} {
+		n := 0
+		en := zap.LevelEnablerFunc(func(zapcore.Level) bool { n++; return pattern[(n-1)%len(pattern)] })
+		core, logs := observer.New(zapcore.DebugLevel)
+		l := zap.New(core, zap.AddStacktrace(en), zap.AddCaller())
+		for i := 0; i < 6; i++ {
+			w := &c15w{l: l, s: l.Sugar(), fe: []int{2, 8}[i%2], lvl: zapcore.WarnLevel}
+			logs.TakeAll()
+			c15deep(5, w, c15fs[0])
+			es := logs.TakeAll()
+			if len(es) != 1 {
+				continue
+			}
+			if st := es[0].Stack; st != "" && (strings.Count(st, "main.c15deep\n") != 5 || !strings.Contains(st, "main.main\n")) {
+				add("C15/stack-incomplete", "stack-trace enabler answering %v on successive reads: entry %d carries a stack trace that is not the whole call chain: %q", pattern, i, st)
+			}
 		}
 	}
 	return finds
